@@ -196,6 +196,9 @@ bool dispatch_api(State& st, const std::string& op, const json& a, json& ret);
 bool dispatch_codec(State& st, const std::string& op, const json& a, json& ret);
 bool dispatch_table(State& st, const std::string& op, const json& a, json& ret);
 
+// table-API view of a 2.x library (ops_table.cpp); null when the case holds no engine_library
+json observe_tables(State& st, const json& a);
+
 json exception_to_json(const std::exception& e);
 std::string demangle(const char* n);
 
